@@ -40,6 +40,7 @@ RULE = (
     "get_lexer / LRUCache / Lexer.__init__ / overlay. Every render is compared with the isolated render of the same "
     "(configuration, source, data). Non-trivial = a configuration is used again after a different configuration was used (or "
     "concurrently with it); distinct = digest(history, configurations, switch trace)."
+    ' One source in six ends with an include that needs a loader (every loader-less entry point must fail the same way).'
 )
 ASSUMPTIONS = [
     "decides only the cache-isolation sentence of C13; the translation-equivalence sentence is a pure input property (not applicable to simulation) and is not claimed",
@@ -326,3 +327,7 @@ def run(tape: Tape) -> Outcome:
         if gc_was:
             gc.enable()
     return out
+
+from sim.core import guarded as _guarded  # noqa: E402
+
+run = _guarded(run)
